@@ -2,7 +2,7 @@ import ExprModel.Proofs.BcFrag
 /-
 C05, part 5: closure of `Frag` under the emit schemes that contain jumps.
 -/
-namespace ExprModel
+namespace ExprModel.Bc
 
 /-- closes `JumpsClosed (instrs <scheme>)`: sub-fragments by `JumpsClosed.place` (their `JumpsClosed` must be in the
     context), literal instructions by computing the jump target and peeling segments (`bnd_tac`) -/
@@ -85,4 +85,4 @@ theorem Frag.scope {c : Array Val} {inner : List LInstr} (l : Loc) (h : Frag c i
   · jumps_tac
   · simpa using NestBal.scope h.nest 0 0
 
-end ExprModel
+end ExprModel.Bc
